@@ -2,6 +2,10 @@
 # tools_sweep.sh <tier> <seed>... : every check at each seed; prints one summary line per (check, seed) and any VIOLATION lines
 TIER=$1; shift
 cd "$(dirname "$0")"
+# in a `vp run --with-repo` snapshot: build against the snapshot of /repo so that /repo itself stays free
+if [ -n "${VP_RUN_REPO:-}" ] && [ "$(pwd)" != "/verif" ]; then
+  sed -i "s|\"/repo/|\"$VP_RUN_REPO/|g" sim/*/Cargo.toml sim/tool_*/src/lib.rs
+fi
 for seed in "$@"; do
   for id in C01 C02 C04 C05 C06 C07 C09 C25 C26 C27 C28 C29 C30 C32 C33 C34; do
     out=$(./check $id --tier $TIER --seed $seed 2>&1); e=$?
